@@ -28,7 +28,7 @@ Inductive pop :=
 | PAwait (x : var) (b : bool)       (* Vx.is_awaiting := b *)
 | PWait (spec : bool) (a : nat).    (* ra.wait(), inside `with try_compute` when spec *)
 
-Record mstate := MState { regs : list poly; wld : world; rets : list (option Z) }.
+Record mstate := MState { regs : list poly; wld : world; rets : list (option Z); oof : bool }.
 
 Definition getr (st : mstate) (a : nat) : poly := nth a (regs st) (pconst 0).
 Fixpoint setnth {A} (l : list A) (n : nat) (v : A) : list A :=
@@ -37,7 +37,7 @@ Fixpoint setnth {A} (l : list A) (n : nat) (v : A) : list A :=
   | _ :: r, O => v :: r
   | x :: r, S n' => x :: setnth r n' v
   end.
-Definition setr (st : mstate) (r : nat) (p : poly) : mstate := MState (setnth (regs st) r p) (wld st) (rets st).
+Definition setr (st : mstate) (r : nat) (p : poly) : mstate := MState (setnth (regs st) r p) (wld st) (rets st) (oof st).
 
 (* what `rhs.get_current_best_estimate()` gives for a variable, as a polynomial *)
 Definition estimate (st : mstate) (x : var) : poly :=
@@ -48,9 +48,9 @@ Definition estimate (st : mstate) (x : var) : poly :=
   end.
 
 Definition set_settled (st : mstate) (x : var) (v : value) : mstate :=
-  let w := wld st in MState (regs st) (World ((x, v) :: settled w) (awaiting w) (latent w)) (rets st).
+  let w := wld st in MState (regs st) (World ((x, v) :: settled w) (awaiting w) (latent w)) (rets st) (oof st).
 Definition set_latent (st : mstate) (x : var) (v : value) : mstate :=
-  let w := wld st in MState (regs st) (World (settled w) (awaiting w) ((x, v) :: latent w)) (rets st).
+  let w := wld st in MState (regs st) (World (settled w) (awaiting w) ((x, v) :: latent w)) (rets st) (oof st).
 
 Definition mstep (st : mstate) (o : pop) : mstate :=
   match o with
@@ -74,26 +74,27 @@ Definition mstep (st : mstate) (o : pop) : mstate :=
   | PLatentV x y => set_latent st x (VVar y)
   | PAwait x b =>
       let w := wld st in
-      MState (regs st) (World (settled w) (if b then x :: awaiting w else filter (fun y => negb (y =? x)) (awaiting w)) (latent w)) (rets st)
+      MState (regs st) (World (settled w) (if b then x :: awaiting w else filter (fun y => negb (y =? x)) (awaiting w)) (latent w)) (rets st) (oof st)
   | PWait spec a =>
       let w := wld st in
+      let o1 := oof st || substitute_oof w (getr st a) in
       let '(p1, nr) := substitute w (getr st a) in
       match nr with
       | [] =>
           let '(r, w') := sum_terms spec w (coeffs p1) (const p1) in
-          MState (setnth (regs st) a p1) w' (rets st ++ [r])
+          MState (setnth (regs st) a p1) w' (rets st ++ [r]) o1
       | _ =>
-          if spec then MState (regs st) w (rets st ++ [None])
+          if spec then MState (regs st) w (rets st ++ [None]) o1
           else
-            let '(p2, w2, raised) := settle_loop 100 w p1 nr in
-            if raised then MState (setnth (regs st) a p2) w2 (rets st ++ [None])
+            let '(p2, w2, raised, o2) := settle_loop 100 w p1 nr in
+            if raised then MState (setnth (regs st) a p2) w2 (rets st ++ [None]) (o1 || o2)
             else let '(r, w3) := sum_terms false w2 (coeffs p2) (const p2) in
-                 MState (setnth (regs st) a p2) w3 (rets st ++ [r])
+                 MState (setnth (regs st) a p2) w3 (rets st ++ [r]) (o1 || o2)
       end
   end.
 
 Definition run_ops (nregs : nat) (ops : list pop) : mstate :=
-  fold_left mstep ops (MState (repeat (pconst 0) nregs) (World [] [] []) []).
+  fold_left mstep ops (MState (repeat (pconst 0) nregs) (World [] [] []) [] false).
 
 Definition obs_poly := (list (var * Z) * Z)%type.
 Definition poly_obs_eqb (p : poly) (o : obs_poly) : bool := poly_eqb p (Poly (fst o) (snd o)).
@@ -116,4 +117,5 @@ Definition poly_case := (nat * list pop * list obs_poly * list (option Z))%type.
 Definition judge_poly (c : poly_case) : N :=
   let '(n, ops, oregs, orets) := c in
   let st := run_ops n ops in
-  code_of (all2 poly_obs_eqb (regs st) oregs && all2 ret_eqb (rets st) orets) true.
+  (* the model running out of fuel is a failed correspondence, never an answer *)
+  code_of (negb (oof st) && all2 poly_obs_eqb (regs st) oregs && all2 ret_eqb (rets st) orets) true.
